@@ -79,12 +79,16 @@ def _get_positions_from_all_adjacent_unit_cells(structure, distance):
                 near_types.append(s_types[i])
 
     else: # orthorhombic
+        # a box-shaped cell may point along a negative axis (e.g. a crystal turned by 180 degrees): the cell then
+        # spans [length, 0] on that axis
         cell = list(np.diag(cell))
+        lo = [min(0., c) for c in cell]
+        hi = [max(0., c) for c in cell]
 
         for i, pos in enumerate(all_positions):
-            if (pos[0] >= -distance and pos[0] < distance + cell[0] and
-                pos[1] >= -distance and pos[1] < distance + cell[1] and
-                pos[2] >= -distance and pos[2] < distance + cell[2]):
+            if (pos[0] >= lo[0] - distance and pos[0] < distance + hi[0] and
+                pos[1] >= lo[1] - distance and pos[1] < distance + hi[1] and
+                pos[2] >= lo[2] - distance and pos[2] < distance + hi[2]):
 
                 near_indices.append(i)
                 near_pos.append(pos)
